@@ -60,6 +60,19 @@ def family(quick):
     scs.append({"id": "C08/wait/closeUp-neverAcked-ctx", "kind": "iscp", "conn": dict(conn),
                 "steps": base + [{"a": "openUp", "obj": "U1", "qos": "reliable", "closeTimeoutMs": 5000, "must": True}] + up[1:]
                 + [{"a": "closeUp", "g": "T", "obj": "U1", "ctxMs": CTX, "wait": True}] + probes()})
+    # the acknowledgement never comes AND the broker ignores the close request: the context that was used up by the first wait (or that
+    # was already done at the call) still bounds the second one
+    drop_close = [{"a": "rule", "rule": {"on": "UpstreamCloseRequest", "do": "drop"}}]
+    scs.append({"id": "C08/wait/closeUp-neverAcked-ctx-closeDropped", "kind": "iscp", "conn": dict(conn),
+                "steps": base + [{"a": "openUp", "obj": "U1", "qos": "reliable", "closeTimeoutMs": 5000, "must": True}] + up[1:] + drop_close
+                + [{"a": "closeUp", "g": "T", "obj": "U1", "ctxMs": CTX, "wait": True}] + probes()})
+    scs.append({"id": "C08/wait/closeUp-doneCtx-closeDropped", "kind": "iscp", "conn": dict(conn),
+                "steps": base + [{"a": "openUp", "obj": "U1", "qos": "reliable", "closeTimeoutMs": 5000, "must": True}] + drop_close
+                + [{"a": "closeUp", "g": "T", "obj": "U1", "ctxMs": -1, "boundMs": 50, "wait": True}] + probes()})
+    scs.append({"id": "C08/wait/closeDown-doneCtx-closeDropped", "kind": "iscp", "conn": dict(conn),
+                "steps": base + [{"a": "openDown", "obj": "D1", "qos": "reliable", "srcs": ["n1"], "ackFlushMs": 20, "must": True},
+                                 {"a": "rule", "rule": {"on": "DownstreamCloseRequest", "do": "drop"}},
+                                 {"a": "closeDown", "g": "T", "obj": "D1", "ctxMs": -1, "boundMs": 50, "wait": True}] + probes()})
     dn = [{"a": "openDown", "obj": "D1", "qos": "reliable", "srcs": ["n1"], "ackFlushMs": 20, "must": True}]
     for op in ("read", "readMeta"):
         scs.append({"id": "C08/wait/%s-noData" % op, "kind": "iscp", "conn": dict(conn),
